@@ -107,7 +107,7 @@ func main() {
 		r.Stat("class.dhcp-path-directed", 1)
 	}
 	// bounded-exhaustive under the discipline (N after every frame): depth 1..2, depth 1..4 in thorough
-	maxDepth := 2
+	maxDepth := 3
 	if r.Thorough() {
 		maxDepth = 4
 	}
@@ -116,6 +116,20 @@ func main() {
 			r.Do("t6", append([]string{cfg.Tok(), "0"}, ops...)...)
 			r.Stat("class.exhaustive", 1)
 		})
+	}
+	nConf := 400
+	if r.Thorough() {
+		nConf = 8000
+	}
+	for i := 0; i < nConf; i++ {
+		var ops []string
+		if i%4 == 3 {
+			ops = g.OfferDeletionHistory()
+		} else {
+			ops = g.ConflictHistory(6 + rng.Intn(25))
+		}
+		r.Do("t6", append([]string{cfg.Tok(), "0"}, ops...)...)
+		r.Stat("class.conflict", 1)
 	}
 	for i := 0; i < nShort+nLong; i++ {
 		n := 30 + rng.Intn(31)
